@@ -343,6 +343,19 @@ def own_packets(tier, seed):
                 lit.format = fmt
                 lit.update_hlen()
                 out.append(({'own': 'literal', 'filename': fn[:20], 'fnlen': len(fn.encode('utf-8')), 'format': fmt, 'mtime': mt}, bytes(lit)))
+    # names that do not fit the one-octet length field (255 octets): refusing to write them is fine, writing something unreadable is not
+    for fn in ('ü' * 140, 'a' + '中' * 100, 'x' * 256, '\U0001F600' * 64):
+        lit = LiteralData()
+        lit._contents = bytearray(b'contents')
+        lit.filename = fn
+        lit.mtime = datetime.fromtimestamp(MTIMES[0], UTC)
+        lit.format = 'b'
+        try:
+            lit.update_hlen()
+            raw = bytes(lit)
+        except (ValueError, OverflowError, pgpy.errors.PGPError):
+            continue
+        out.append(({'own': 'literal', 'filename': fn[:20], 'fnlen': len(fn.encode('utf-8')), 'format': 'b', 'mtime': MTIMES[0], 'overlong': True}, raw))
     for name in ['Plain Name', 'Zoë Ünï', '中文', 'x' * 300, 'name (comment) <e@x>', '']:
         try:
             u = pgpy.PGPUID.new(name)
@@ -555,6 +568,10 @@ def component(tier='quick', seed=0, known=()):
     shas, classes_seen, normalised = set(), {}, 0
     accepted = 0
     for r in results:
+        if 'rejected' in r and r.get('own'):
+            # 'every packet PGPy emits ... parses back': PGPy refusing its own output is a failing case, not a statistic
+            r = dict(r, fail=['[reparse-own] PGPy refuses to parse a packet it wrote itself: %s' % r['rejected']], cls='?')
+            r.pop('rejected')
         if 'rejected' in r:
             key = 'tag %d | %s' % (r['tag'], r['rejected'])
             e = rejected.setdefault(key, {'count': 0, 'e.g.': r['label']})
